@@ -26,7 +26,6 @@ try:
   import ttconv.filters.doc.lcd as LCD
 finally:
   del builtins.__file__
-import ttconv.config as CFG                # noqa: E402
 import ttconv.imsc.config as IMSC          # noqa: E402
 import ttconv.scc.config as SCC            # noqa: E402
 import ttconv.srt.config as SRT            # noqa: E402
@@ -75,18 +74,27 @@ STRING_FIELDS = [(SCC.SccReaderConfiguration, "scc_reader", "text_align", "text_
 def all_harnesses():
   hs = []
 
-  def safe_area(ctx):
+  def safe_area_accept(ctx):
     x = sym_int("x")
     st, cfg = core.call_real(LCD.LCDDocFilterConfig.parse, {"safe_area": x}, allowed=(ValueError,))
     inside = (x >= 0) & (x <= 30)
     prove((~inside) | (st == "ok"), "documented-range-accepted")
-    prove(inside | (st == "raise"), "outside-0..30-rejected-with-ValueError")
     if st == "ok":
       prove(cfg.safe_area == x, "returned-unchanged")
 
-  hs.append(Harness("lcd.safe_area-out-of-range-accepted@all-integers", safe_area, PARSE + ["ttconv.filters.doc.lcd:_safe_area_decoder"],
+  hs.append(Harness("lcd.safe_area@all-integers", safe_area_accept, PARSE + ["ttconv.filters.doc.lcd:_safe_area_decoder"],
                     "replayers.c19:parse_int", {"module": "lcd", "key": "safe_area"},
-                    "configuration parsing accepts exactly the documented values: safe_area is an integer between 0 and 30"))
+                    "configuration parsing accepts the documented values: every integer between 0 and 30, unchanged"))
+
+  def safe_area_reject(ctx):
+    x = sym_int("x")
+    st, cfg = core.call_real(LCD.LCDDocFilterConfig.parse, {"safe_area": x}, allowed=(ValueError,))
+    prove(((x >= 0) & (x <= 30)) | (st == "raise"), "outside-0..30-rejected-with-ValueError")
+
+  # named after the bounded-tier key of the same defect, so that one known-finding glob covers both tiers and nothing else
+  hs.append(Harness("lcd.safe_area-out-of-range-accepted@all-integers", safe_area_reject, PARSE + ["ttconv.filters.doc.lcd:_safe_area_decoder"],
+                    "replayers.c19:parse_int", {"module": "lcd", "key": "safe_area"},
+                    "configuration parsing rejects others with an error: no integer outside 0..30 is accepted as safe_area"))
 
   def max_row_count(ctx):
     x = sym_int("x")
@@ -101,17 +109,24 @@ def all_harnesses():
                     "replayers.c19:parse_int", {"module": "stl_reader", "key": "max_row_count"}, "max_row_count: \"MNR\" | integer"))
 
   for cls, module, key in BOOL_FIELDS:
-    def boolean(ctx, cls=cls, key=key):
+    def boolean_reject(ctx, cls=cls, key=key):
       x = sym_int("x")
       st, cfg = core.call_real(cls.parse, {key: x}, allowed=REJECT)
       prove((x == 0) | (x == 1) | (st == "raise"), "integer-other-than-0-1-rejected")
+
+    hs.append(Harness(f"bool-field-not-validated@all-integers:{module}.{key}", boolean_reject, PARSE, "replayers.c19:parse_int",
+                      {"module": module, "key": key}, f"{module}.{key}: true | false -- no other integer than (leniently) 0/1 is accepted"))
+
+    def boolean_meaning(ctx, cls=cls, key=key):
+      x = sym_int("x")
+      st, cfg = core.call_real(cls.parse, {key: x}, allowed=REJECT)
       if st == "ok":
         got = getattr(cfg, key)
         prove((x != 0) | (got == False), "0-is-not-true")     # noqa: E712
         prove((x != 1) | (got == True), "1-is-not-false")     # noqa: E712
 
-    hs.append(Harness(f"bool-field-not-validated@all-integers:{module}.{key}", boolean, PARSE, "replayers.c19:parse_int",
-                      {"module": module, "key": key}, f"{module}.{key}: true | false"))
+    hs.append(Harness(f"{module}.{key}-0-1@all-integers", boolean_meaning, PARSE, "replayers.c19:parse_int",
+                      {"module": module, "key": key}, f"{module}.{key}: if 0/1 are accepted at all they mean false/true"))
 
   for cls, module, key, dec in STRING_FIELDS:
     def string(ctx, cls=cls, key=key):
